@@ -262,7 +262,19 @@ func c01DBs(thorough bool) []dbSpec {
 }
 
 func c01Run(c *lib.Ctx) {
-	qs := c01Queries(c.Thorough())
+	qsQuick := c01Queries(false)
+	var qsExtra []string // thorough only: the remaining 2-word queries and the 3-word ones, on databases of <=2 entries
+	if c.Thorough() {
+		inQuick := map[string]bool{}
+		for _, q := range qsQuick {
+			inQuick[q] = true
+		}
+		for _, q := range c01Queries(true) {
+			if !inQuick[q] {
+				qsExtra = append(qsExtra, q)
+			}
+		}
+	}
 	var caseIdx int64
 	selfCheck := 0
 	for di, spec := range c01DBs(c.Thorough()) {
@@ -275,6 +287,10 @@ func c01Run(c *lib.Ctx) {
 		db := spec.build(c)
 		env := newC01Env(db)
 		n := len(db.Commands)
+		qs := qsQuick
+		if len(spec.Pool) <= 2 {
+			qs = append(append([]string{}, qsQuick...), qsExtra...)
+		}
 		for _, q := range qs {
 			qq := strconv.Quote(q)
 			for ex := 0; ex < 7; ex++ {
@@ -522,9 +538,9 @@ func c01Replay(c *lib.Ctx, raw json.RawMessage) []lib.Violation {
 func init() {
 	lib.Register(&lib.Check{
 		ID: "C01", Level: "model_checking",
-		Rule:      "full product of: databases = {empty, 12 identical entries, 40 entries} + all subsets of <=2 (quick) / <=3 (thorough) entries of the 28-entry pool; queries = 15 specials + all 1-word + every 7th (quick) / all (thorough) 2-word sequences over the 22-word alphabet (+ 3-word over 8 words, thorough); limits {-1,0,1,2,3,N,N+1,1000}; paths {lexical, NLP, fuzzy thr 0/-30, NLP+fuzzy thr 0/-30}; extras {default, pipeline-only, pipeline-boost, all-platforms, two context-boost maps, all-on}; entry points SearchUniversal and cached (hit) always, SearchWithPipelineOptions on the lexical path, Search / monitored / cached (miss) on defaults, recovery searches whenever the engine answer is empty; every ordered pair of limits {1000,25,12,3,1,0,-1} issued back to back through one caching / monitoring wrapper on the 12- and 40-entry databases; shipped database on 40 queries x 4 limits x 4 paths; the real binary on 3 databases x 6 queries (recovery, typo, lexical) x 5 limits x 2 formats (printed entries <= limit in force and equal to the engine's answer). evaluations = entry-point calls checked; non-trivial = calls with a non-empty answer",
+		Rule:      "full product of: databases = {empty, 12 identical entries, 40 entries} + all subsets of <=2 (quick) / <=3 (thorough) entries of the 31-entry pool; queries = 15 specials + all 1-word + every 7th 2-word sequence over the 22-word alphabet (thorough: on databases of <=2 entries also all other 2-word sequences and 3-word sequences over 8 words); limits {-1,0,1,2,3,N,N+1,1000}; paths {lexical, NLP, fuzzy thr 0/-30, NLP+fuzzy thr 0/-30}; extras {default, pipeline-only, pipeline-boost, all-platforms, two context-boost maps, all-on}; entry points SearchUniversal and cached (hit) always, SearchWithPipelineOptions on the lexical path, Search / monitored / cached (miss) on defaults, recovery searches whenever the engine answer is empty; every ordered pair of limits {1000,25,12,3,1,0,-1} issued back to back through one caching / monitoring wrapper on the 12- and 40-entry databases; shipped database on 40 queries x 4 limits x 4 paths; the real binary on 3 databases x 6 queries (recovery, typo, lexical) x 5 limits x 2 formats (printed entries <= limit in force and equal to the engine's answer). evaluations = entry-point calls checked; non-trivial = calls with a non-empty answer",
 		Assume:    []string{"map iteration order pinned (sorted keys) by build overlay", "default limit: 10 for SearchUniversal-based entry points, constants.DefaultSearchLimit for SearchWithPipelineOptions", "the CLI's truncation of recovery results is checked at process level in C17"},
-		QuickSecs: 150, ThorSecs: 1500,
+		QuickSecs: 300, ThorSecs: 3000,
 		Run: c01Run, Replay: c01Replay,
 		Finish: func(m *lib.Report, tier string) string {
 			need := []string{"answered:lexical:default", "answered:nlp:default", "answered:lexical+fuzzy:default", "answered:lexical:pipeline-only", "answered:lexical:all-on",
